@@ -155,8 +155,8 @@ def first_repo_frame(text):
 
 
 # --------------------------------------------------------------------------- one leg
-def run_leg(prop, tier, seed, leg, workdir):
-    """Runs all shards of a leg; returns list of ShardResult."""
+def leg_jobs(prop, tier, seed, leg, workdir):
+    """Builds the variant and returns the shard jobs of a leg (or a build failure result)."""
     variant = leg.get("variant", "release")
     ok, out = build(variant)
     if not ok:
@@ -164,7 +164,7 @@ def run_leg(prop, tier, seed, leg, workdir):
         r.name = f"build-{variant}"
         r.rc = 99
         r.stderr = out
-        return [r]
+        return [], [r]
     shards = leg.get("shards", CORES)
     timeout = leg.get("timeout", 900)
     jobs = []
@@ -192,13 +192,26 @@ def run_leg(prop, tier, seed, leg, workdir):
                 env["ASAN_SYMBOLIZER_PATH"] = shutil.which("llvm-symbolizer-14") or shutil.which("llvm-symbolizer") or ""
             if variant == "tsan":
                 env["TSAN_OPTIONS"] = "halt_on_error=1:exitcode=66:second_deadlock_stack=1"
+        for k, v in leg.get("env", {}).items():
+            env[k] = v
         jobs.append((name, cmd, env, cwd, timeout, out_path if leg.get("writes_out", True) else None))
-    results = []
-    with ThreadPoolExecutor(max_workers=min(CORES, len(jobs))) as ex:
-        futs = [ex.submit(run_proc, *j) for j in jobs]
-        for f in futs:
-            results.append(f.result())
-    return results
+    return jobs, []
+
+
+def run_all_legs(prop, tier, seed, legs, workdir):
+    """Runs the shards of all legs in one pool of CORES workers. Returns {leg index: [ShardResult]}."""
+    per_leg = {}
+    submitted = []
+    with ThreadPoolExecutor(max_workers=CORES) as ex:
+        for li, leg in enumerate(legs):
+            jobs, fails = leg_jobs(prop, tier, seed, leg, workdir)
+            per_leg[li] = list(fails)
+            w = leg.get("weight", 1)
+            for j in jobs:
+                submitted.append((li, ex.submit(run_proc, *j)))
+        for li, f in submitted:
+            per_leg[li].append(f.result())
+    return per_leg
 
 
 # --------------------------------------------------------------------------- known findings
@@ -253,9 +266,10 @@ def check_property(prop, tier, seed):
     state_files = []
     memclass = prop in plan.MEMORY_CLASS
 
-    for leg in legs:
+    all_results = run_all_legs(prop, tier, seed, legs, workdir)
+    for li, leg in enumerate(legs):
         lt0 = time.time()
-        results = run_leg(prop, tier, seed, leg, workdir)
+        results = all_results[li]
         leginfo = {"name": leg["name"], "variant": leg.get("variant", "release"), "shards": len(results), "events": 0, "wall_s": 0.0, "reports": 0, "nonvac": 0}
         for r in results:
             text = r.stdout + "\n" + r.stderr
@@ -350,10 +364,8 @@ def check_property(prop, tier, seed):
                 violations.append({"signature": sig, "replay": v["replay"], "text": f"{v['pred']}: {v['detail']} :: {'; '.join(v['events'])}"})
             for k, v in s.get("other_fails", {}).items():
                 notes.append(f"other-property={k} count={v['n']}")
-        leginfo["wall_s"] = round(time.time() - lt0, 1)
+        leginfo["wall_s"] = round(max([r.wall for r in results] or [0.0]), 1)
         agg["legs"].append(leginfo)
-        if violations and not leg.get("continue_after_violation"):
-            break
 
     # ------------------------------------------------------------------ verdict
     for n in sorted(set(notes))[:20]:
